@@ -86,4 +86,11 @@ CHECKS["C11"] = {"text": "Proved on the model: sort_task_list (9 rules), sort_wo
     "CPython's sorted() is trusted to be a stable sort.",
     "note": COMMON_NOTE + " PARTIAL: allocation no-inversion clause searched. Pure sort correspondence by generated cases files (no extraction).",
     "technique": "Coq proof (stable insertion sort: permutation, sortedness, stability) + vm_compute correspondence on pure lists + oracle for allocation inversions"}
+CHECKS["C09"] = {"text": "Proved on the model: a run with state and log initialisation is a function of configuration and options only -- simulate c o s = simulate c o s' for ALL incoming "
+    "states, hence calling simulate again on a simulated project gives the identical result and no hidden state survives; the set of finished top-level components and the set of NONE tasks may "
+    "be visited in any order with the same result (finishing and both PERT passes iterate ordered lists since the repairs). The parts that live in the Python runtime are covered by the harness: "
+    "forced set-visit orders (5 per case), re-simulation on the same object, default-argument calls on a fresh object after a log edit, and fresh processes with other PYTHONHASHSEED and shifted heap.",
+    "note": COMMON_NOTE.replace("no axioms (Print Assumptions: closed under the global context)", "one standard-library axiom: functional_extensionality_dep (used to state order independence as equality of states)") +
+            " PARTIAL: order independence of __check_working's set and the process-level clauses are exercised by the harness, not proved.",
+    "technique": "Coq proof (independence of the incoming state; commuting folds over permutations) + harness: forced visit orders, rerun, fresh processes"}
 NOT_APPLICABLE = {}
